@@ -75,14 +75,31 @@ func TestVerifC13HeartbeatRace(t *testing.T) {
 		}
 		// 2. the schedule
 		dr.p.notifier = &discord.DiscordNotifier{}
+		// (every direct handler call under a watchdog: a handler that never returns is reported by the history harness; here it only
+		// must not hang this test)
+		call := func(f func()) bool {
+			fin := make(chan struct{})
+			go func() { defer close(fin); f() }()
+			select {
+			case <-fin:
+				return true
+			case <-time.After(10 * time.Second):
+				return false
+			}
+		}
 		for i := 0; i < nmsg; i++ {
 			k := w.msg(0)
 			k.Sequence = uint64(1000 + i)
 			d := digestOfMsg(k, 0)
-			dr.p.handleMessage(ctx, k)
-			dr.p.handleObservation(ctx, w.obsBy(-1, d, k.TxHash[:]))
-			dr.p.handleObservation(ctx, w.obsBy(1, d, k.TxHash[:]))
-			dr.p.handleObservation(ctx, w.obsBy(2, d, k.TxHash[:]))
+			if !call(func() {
+				dr.p.handleMessage(ctx, k)
+				dr.p.handleObservation(ctx, w.obsBy(-1, d, k.TxHash[:]))
+				dr.p.handleObservation(ctx, w.obsBy(1, d, k.TxHash[:]))
+				dr.p.handleObservation(ctx, w.obsBy(2, d, k.TxHash[:]))
+			}) {
+				mon = append(mon, "setup: a processor handler did not return within 10 s (message / observation handlers called one after the other on one goroutine)")
+				return
+			}
 			for len(dr.sendC) > 0 {
 				<-dr.sendC
 			}
